@@ -508,7 +508,9 @@ func genC13Runtime(t *rapid.T, cfg *core.Config) *core.Case {
 	}
 	c := pcase("C13", "runtime")
 	c.P["missing"] = missing
-	c.P["ops"] = rapid.IntRange(0, 3).Draw(t, "ops") == 0
+	// (an overload is selected on static operand types: with a dynamically typed operand the int claim of open
+	// finding F26 would select Div for a value that is no int)
+	c.P["ops"] = rapid.IntRange(0, 3).Draw(t, "ops") == 0 && !x.HasDynamic()
 	c.X, c.Env = x, spec
 	c.Source = c13Printer(t).Print(x)
 	n := ref.Fail.Node
